@@ -17,7 +17,7 @@ pub struct C01 {
 impl C01 {
     pub fn new(cx: &mut Ctx) -> C01 {
         // mode "tiny": only the smallest seeds (Miri / valgrind volumes)
-        let max = if cx.mode == "tiny" { 5_000 } else if cx.quick() { 260_000 } else { 4_000_000 };
+        let max = if cx.mode == "tiny" { 3_000 } else if cx.quick() { 260_000 } else { 4_000_000 };
         let seeds = load_seed_fonts(max, true);
         let mut seeds = seeds;
         // Derived seeds: small CID-keyed CFF fonts (several Font DICTs, FDSelect, local subrs) cut out
